@@ -17,7 +17,11 @@
  * a taskpool is registered / unregistered only by the thread that reserved it, register only when not registered,
  * unregister only when registered (re-registration after unregistration is what a re-enqueued DTD taskpool does);
  * any thread looks up any identifier (identifiers travel in messages), including ones never handed out.
- * sync_ids is collective and not concurrent with reservations (the property only speaks of the *next* taskpool).
+ * sync_ids is collective.  In a "quiet" sync epoch nobody reserves meanwhile and the *next* identifiers of the ranks are
+ * compared; in a "busy" sync epoch (half of them) the other threads of the rank also reserve / register / unregister
+ * while thread 0 is inside parsec_taskpool_sync_ids (the registry lock is taken by sync_ids for exactly that case: a
+ * DTD taskpool may be created by another thread): the "next identifier" comparison is then not defined and skipped,
+ * while distinctness, linearizability and the final sweep still judge everything that happened during the sync.
  *
  * Oracle:
  *  - every identifier returned by reserve_id on a rank is different from all identifiers returned before on that
@@ -66,10 +70,10 @@ typedef struct c37_api {
 enum { OP_RESERVE, OP_REGISTER, OP_UNREGISTER, OP_LOOKUP, OP_SYNC, OP_N };
 static const char *const opnames[] = {"reserve", "register", "unregister", "lookup", "sync"};
 enum { PR_GROW3, PR_GROW6, PR_LOOKUP_HIT, PR_LOOKUP_UNREG, PR_LOOKUP_BEYOND, PR_LOOKUP_OVERLAP_WRITE, PR_REREGISTER, PR_SYNC_RAISED, PR_SYNC_GREW,
-       PR_SYNC_BYSTANDER, PR_MULTIRANK, PR_NO_MPI, PR_N };
+       PR_SYNC_BYSTANDER, PR_MULTIRANK, PR_NO_MPI, PR_SYNC_BUSY, PR_N };
 static const char *const probe_names[] = {"ids_beyond_8_three_doublings", "ids_beyond_64_six_doublings", "lookup_returned_registered_taskpool",
     "lookup_of_reserved_unregistered_id", "lookup_beyond_last_reserved_id", "lookup_overlapping_register_or_unregister", "reregistered_after_unregister",
-    "sync_raised_a_ranks_next_id", "sync_jumped_over_a_doubling", "lookup_while_rank_is_in_sync", "several_ranks", "sync_without_mpi"};
+    "sync_raised_a_ranks_next_id", "sync_jumped_over_a_doubling", "lookup_while_rank_is_in_sync", "several_ranks", "sync_without_mpi", "registry_mutated_while_rank_is_in_sync"};
 
 #define MAXR 4
 #define MAXT 8
@@ -93,7 +97,7 @@ typedef struct {
     hrec_t hist[MAXH];
     int nhist, overflow, out_of_range;
     int lo, hi;                     /* op index range of the current epoch */
-    int sync_a, sync_b, in_sync[MAXR];
+    int sync_a, sync_b, sync_busy, busy_reserved, in_sync[MAXR];
     int hot[MAXR][8], nhot[MAXR];   /* taskpools most recently reserved / registered / unregistered on the rank */
     long sync_nid[MAXR];
 } ctx_t;
@@ -166,6 +170,8 @@ static int pick_lookup_id(ctx_t *c, int k, long a, long b)
     return id;
 }
 
+static void worker_op(ctx_t *c, int g, int k, const hx_op_t *o);
+
 static void worker(int g, void *arg)
 {
     ctx_t *c = arg;
@@ -176,6 +182,14 @@ static void worker(int g, void *arg)
         const hx_op_t *o = &c->plan->ops[n];
         if (o->thr % c->NT != g) continue;
         if (res->vclass || c->overflow || c->out_of_range) return;
+        worker_op(c, g, k, o);
+    }
+}
+
+static void worker_op(ctx_t *c, int g, int k, const hx_op_t *o)
+{
+    hx_result_t *res = c->res;
+    {
         switch (o->op) {
         case OP_RESERVE: {
             int cnt = (int)(o->a % 256) + 1;
@@ -225,6 +239,23 @@ static void sync_worker(int g, void *arg)
     ctx_t *c = arg;
     int k = c->rank_of[g];
     sim_set_rank(k);
+    if (c->local_of[g] != 0 && c->sync_busy) {
+        /* busy bystander: mutate the registry while thread 0 of the rank is inside sync_ids */
+        for (int j = 0; j < 2 + c->sync_a && !c->res->vclass && !c->overflow && !c->out_of_range; j++) {
+            unsigned long x = (unsigned long)c->sync_b * 2654435761UL + 97UL * j + 13UL * g;
+            hx_op_t o = {0};
+            o.thr = g; o.a = (long)(x >> 3) % 1000; o.b = (long)(x >> 13) % 1000;
+            switch (x % 5) {
+            case 0: case 1: o.op = OP_RESERVE; o.a = (x >> 5) % 7 == 0 ? (long)(x >> 8) % 40 : 0; c->busy_reserved = 1; break;
+            case 2: o.op = OP_REGISTER; break;
+            case 3: o.op = OP_UNREGISTER; break;
+            default: o.op = OP_LOOKUP; o.a = (long)(x % 100000); break;
+            }
+            if (c->in_sync[k]) sim_probe(PR_SYNC_BUSY);
+            worker_op(c, g, k, &o);
+        }
+        return;
+    }
     if (c->local_of[g] == 0) {
         c->in_sync[k] = 1;
         c->api[k].sync();
@@ -324,7 +355,7 @@ static void gen(hx_plan_t *p, hx_rng_t *r)
             else if (x < 62) hx_add_op(p, t, OP_UNREGISTER, hx_below(r, 1000), hx_below(r, 1000), 0);
             else hx_add_op(p, t, OP_LOOKUP, hx_below(r, 100000), hx_below(r, 1000), 0);
         }
-        if (e < nsync) hx_add_op(p, 0, OP_SYNC, hx_below(r, 4), hx_below(r, 100000), 0);
+        if (e < nsync) hx_add_op(p, 0, OP_SYNC, hx_below(r, 4), hx_below(r, 100000), hx_chance(r, 50));
     }
 }
 
@@ -371,10 +402,11 @@ static void run(const hx_plan_t *p, hx_result_t *res)
         int before[MAXR], mx = 0;
         for (int k = 0; k < c->P; k++) { before[k] = c->maxid[k]; if (before[k] > mx) mx = before[k]; }
         c->sync_a = (int)(p->ops[hi].a % 4); c->sync_b = (int)(p->ops[hi].b % 100000);
+        c->sync_busy = (int)(p->ops[hi].c & 1); c->busy_reserved = 0;
         if (!c->mpi) sim_probe(PR_NO_MPI);
         hx_run_threads(c->NT, sync_worker, c);
         if (!res->vclass && !c->out_of_range && c->mpi) {
-            for (int k = 1; k < c->P && !res->vclass; k++)
+            for (int k = 1; k < c->P && !res->vclass && !c->busy_reserved; k++)
                 if (c->sync_nid[k] != c->sync_nid[0])
                     hx_fail(res, "sync-mismatch", "after parsec_taskpool_sync_ids the next taskpool got identifier %ld on rank 0 but %ld on rank %d (largest identifiers before the sync: %d %d %d %d)",
                             c->sync_nid[0], c->sync_nid[k], k, before[0], before[1], before[2], before[3]);
